@@ -92,6 +92,98 @@ Definition run_be (args : list val) : val :=
   | _ => verror "args"
   end.
 
+(* ---- family "seg": the same request history under two segmentations (or truncated) ----
+   args: [cfg; outs; whole; variant; VN kind; VN k; VN o] ; obs: VL [obs whole; obs variant] *)
+Definition run_seg (args : list val) : val :=
+  match args with
+  | cfg :: outs :: whole :: variant :: _ => VL [run_be [cfg; outs; whole]; run_be [cfg; outs; variant]]
+  | _ => verror "args"
+  end.
+
+(* seg-spec (C08): kind 0 = re-segmentation of clean messages: both observations equal.
+   kind 1 = the stream ends at offset o of message k: same results for the first k requests, then
+   an error that is Disconnected iff o = 0, and no handler invocation beyond those of the whole run's prefix *)
+Fixpoint val_eqb (a b : val) {struct a} : bool :=
+  match a, b with
+  | VN x, VN y => x =? y
+  | VS x, VS y => String.eqb x y
+  | VH x, VH y => String.eqb x y
+  | VL x, VL y =>
+      (fix go (l1 l2 : list val) : bool :=
+         match l1, l2 with
+         | [], [] => true
+         | p :: r1, q :: r2 => val_eqb p q && go r1 r2
+         | _, _ => false
+         end) x y
+  | _, _ => false
+  end.
+Fixpoint is_prefix (a b : list val) : bool :=
+  match a, b with
+  | [], _ => true
+  | x :: r, y :: s => val_eqb x y && is_prefix r s
+  | _, [] => false
+  end.
+Definition all_clean (msgs : list val) : bool :=
+  match all_some (map parse_case_msg msgs) with
+  | Some ms => forallb clean_msg ms
+  | None => false
+  end.
+Definition run_seg_spec (args : list val) : val :=
+  match args with
+  | [_; _; VL whole; VL variant; VN kind; VN k; VN o; VL [ow; ov]] =>
+      if negb (all_clean whole) then VS "n/a"
+      else if kind =? 0 then
+        (if val_eqb ow ov then VS "true" else VS "false:C08")
+      else
+        match ow, ov with
+        | VL [VL rw; VL cw; _; _], VL [VL rv; VL cv; _; _] =>
+            let kk := N.to_nat k in
+            let pre_ok := is_prefix (firstn kk rv) rw && Nat.eqb (List.length (firstn kk rv)) kk in
+            let last := nth kk rv (VS "none") in
+            let last_ok :=
+              if o =? 0 then val_eqb last (VS "Disconnected")
+              else negb (val_eqb last (VS "ok")) && negb (val_eqb last (VS "Disconnected")) && negb (val_eqb last (VS "none")) in
+            (* the harness keeps calling until a stop-class error: one trailing Disconnected may follow *)
+            let ends := Nat.eqb (List.length rv) (S kk)
+                        || (Nat.eqb (List.length rv) (S (S kk)) && val_eqb (nth (S kk) rv (VS "none")) (VS "Disconnected")) in
+            let calls_ok := is_prefix cv cw in
+            if pre_ok && last_ok && ends && calls_ok then VS "true" else VS "false:C08"
+        | _, _ => VS "false:C08"
+        end
+  | _ => verror "args"
+  end.
+
+(* ---- family "iovs": get_sub_iovs_offset ---- *)
+Fixpoint m_sub_iovs_offset (lens : list nat) (skip : nat) (nr : nat) : nat * nat :=
+  match lens with
+  | [] => (nr, skip)
+  | l :: r => if Nat.leb l skip then m_sub_iovs_offset r (skip - l) (S nr) else (nr, skip)
+  end.
+Definition run_iovs (args : list val) : val :=
+  match args with
+  | [lens; VN skip] =>
+      match val_NL lens with
+      | Some l => let '(i, off) := m_sub_iovs_offset (map N.to_nat l) (N.to_nat skip) 0 in
+                  VL [VN (N.of_nat i); VN (N.of_nat off)]
+      | None => verror "args"
+      end
+  | _ => verror "args"
+  end.
+Definition run_iovs_spec (args : list val) : val :=
+  match args with
+  | [lens; VN skip; VL [VN i; VN off]] =>
+      match val_NL lens with
+      | Some l =>
+          let total := fold_right N.add 0 l in
+          if skip <? total then
+            vbool ((fold_right N.add 0 (firstn (N.to_nat i) l) + off =? skip) && (off <? nth (N.to_nat i) l 0))
+          else VS "n/a"
+      | None => verror "args"
+      end
+  | [_; _; _] => VS "false:C08"
+  | _ => verror "args"
+  end.
+
 Definition run (c : val) : val :=
   match c with
   | VL (VS fam :: args) =>
@@ -99,6 +191,10 @@ Definition run (c : val) : val :=
       else if String.eqb fam "valid-spec" then run_valid_spec args
       else if String.eqb fam "be" then run_be args
       else if String.eqb fam "be-spec" then be_spec args
+      else if String.eqb fam "seg" then run_seg args
+      else if String.eqb fam "iovs" then run_iovs args
+      else if String.eqb fam "iovs-spec" then run_iovs_spec args
+      else if String.eqb fam "seg-spec" then run_seg_spec args
       else verror "family"
   | _ => verror "case"
   end.
